@@ -140,6 +140,18 @@ def gen_ham(rng, n, kind):
                         v = complex(rand_dyadic_real(rng, 2), rng.choice([0, 0, 0.5, -1]))
                         M[blk * h + i, blk * h + j] = v
                         M[blk * h + j, blk * h + i] = np.conj(v)
+    elif base == 'timereversal' and n % 2 == 0:
+        # (A) complex up block A, down block conj(A) = A^T (time-reversal partners, opposite flux per spin)
+        h = n // 2
+        A = np.zeros((h, h), dtype=complex)
+        for i in range(h):
+            A[i, i] = rand_dyadic_real(rng)
+            for j in range(i + 1, h):
+                v = complex(rand_dyadic_real(rng, 2), rng.choice([0.5, -1, 0.25, 2]))
+                A[i, j] = v
+                A[j, i] = np.conj(v)
+        M[:h, :h] = A
+        M[h:, h:] = np.conj(A)
     elif base in ('band', 'imaghop'):
         # (B) hopping amplitudes 1e-3 .. 1e-5 next to O(1) ones; (A) purely imaginary hopping (zero real part)
         for i in range(n):
@@ -200,7 +212,7 @@ WEAK_DELTA = [2.0 ** -7, 2.0 ** -10]
 BAND_HOP = [2.0 ** -10, 2.0 ** -14, 2.0 ** -17]
 
 HAM_KINDS = ['diag', 'degenerate', 'spinblock', 'generic', 'generic', 'diag+bcs', 'diag+far', 'degenerate+bcs',
-             'generic+bcs', 'generic+generic', 'spinblock+generic', 'diag+generic', 'degenerate+far', 'diag+weak', 'generic+weak', 'band', 'imaghop', 'imaghop+bcs']
+             'generic+bcs', 'generic+generic', 'spinblock+generic', 'diag+generic', 'degenerate+far', 'diag+weak', 'generic+weak', 'band', 'imaghop', 'imaghop+bcs', 'timereversal', 'timereversal']
 
 
 def cjson(M):
@@ -460,7 +472,7 @@ def check_obj(ctx, s, c, H, Mc, D, const, spec_reqs, model_reqs, n_occ):
 
 
 def stream_energies(ctx):
-    s = Stream('energies+states', 'structured QuadraticHamiltonians (diagonal, degenerate, spin-block-diagonal, generic; BCS / '
+    s = Stream('energies+states', 'structured QuadraticHamiltonians (diagonal, degenerate, spin-block-diagonal, time-reversal partner blocks (A, conj A), generic; BCS / '
                'distant-pair / generic pairing; chemical potential, constant), n <= 4 (thorough 5): transform, energies, '
                'ground energy, Gaussian states for the default and explicit occupations; distinct = distinct Hamiltonians')
     rng = rng_for(ctx.seed, 'c12-energies')
@@ -478,6 +490,8 @@ def stream_energies(ctx):
     for t in range(N):
         n = rng.choice([1, 2, 2, 3, 3, 4, 4] + ([5] if ctx.tier == 'thorough' else []))
         kind = rng.choice(HAM_KINDS)
+        if kind == 'timereversal':
+            n = rng.choice([4, 4, 6])
         M, D, const, mu = gen_ham(rng, n, kind)
         todo.append((M, D, const, mu, kind))
     for (M, D, const, mu, kind) in todo:
@@ -1138,6 +1152,15 @@ def run_sector_case(ctx, s, c, spec_reqs, model_reqs):
         s.violate('chemical_potential / hermitian_part / combined_hermitian_part do not describe M and mu', c, {})
     # spin_sector = None: every oracle of the energies stream (transform, subset sums, default and explicit states)
     check_obj(ctx, s, dict(c, spin_sector=None), H, Mc, None, const, spec_reqs, model_reqs, 2)
+    try:
+        es0, W0, _ = H.diagonalizing_bogoliubov_transform()
+        es0, W0 = np.asarray(es0, dtype=float), np.asarray(W0)
+        s.float_comparisons += 2
+        if W0.shape != (n, n) or err(W0 @ W0.conj().T - np.eye(n)) > TOL or err(W0.T @ np.diag(es0) @ W0.conj() - Mc) > TOL:
+            s.violate('W W^dagger != 1 or W^T diag(eps) W^* != M - mu for the full transform', dict(c, spin_sector=None),
+                      {'orbital_energies': es0.tolist()})
+    except Exception as e:
+        s.violate('diagonalizing_bogoliubov_transform raised %s: %s' % (type(e).__name__, e), dict(c, spin_sector=None), {})
     rng = __import__('random').Random(c['scratch'])
     wb = []
     for sct in (0, 1):
@@ -1244,10 +1267,13 @@ def stream_sectors(ctx):
         N = max(N, 200)
     spec_reqs, model_reqs = [], []
     for t in range(N):
-        n = rng.choice([2, 4, 4, 6])
+        n = rng.choice([2, 4, 4, 6, 6] + ([8] if (ctx.tier == 'thorough' or t % 8 == 0) else []))
         h = n // 2
-        symmetry = rng.choice(['symmetric', 'dependent', 'dependent'])
-        cplx = rng.random() < 0.4
+        # (A) block pairs (A, A), (A, conj A), (A, A^T), (A, B); for the conjugate / transpose pairs A is complex non-real
+        symmetry = ['symmetric', 'conjugate', 'transpose', 'dependent', 'dependent', 'conjugate'][t % 6]
+        if h == 1 and symmetry in ('conjugate', 'transpose'):
+            n, h = 4, 2
+        cplx = symmetry in ('conjugate', 'transpose') or rng.random() < 0.5
 
         def block():
             B = np.zeros((h, h), dtype=complex)
@@ -1256,13 +1282,14 @@ def stream_sectors(ctx):
                 for j in range(i + 1, h):
                     if rng.random() < 0.8:
                         v = rng.choice([-1.0, -0.5, 0.25, 0.5, 1.0])
-                        if cplx and rng.random() < 0.5:
+                        if cplx and (rng.random() < 0.5 or (i, j) == (0, 1)):
                             v = complex(v, rng.choice([-0.5, 0.25, 1.0]))
                         B[i, j] = v
                         B[j, i] = np.conj(v)
             return B
         up = block()
-        dn = up.copy() if symmetry == 'symmetric' else block()
+        dn = {'symmetric': lambda: up.copy(), 'conjugate': lambda: np.conj(up), 'transpose': lambda: up.T.copy(),
+              'dependent': block}[symmetry]()
         M = np.zeros((n, n), dtype=complex)
         M[:h, :h] = up
         M[h:, h:] = dn
